@@ -16,13 +16,14 @@
 EXTENDS Naturals, Sequences, TLC, FiniteSets
 ResultKinds == {"continue", "goto", "error", "crash", "exit"}
 Num == {"0", "1", "-1", "5", "HUGE", "I64", "DEC", "W", "E"}
-Text == {"E", "W", "MB", "SP", "QT", "QT2", "NL"}
+\* LF / CRLF: a value made only of line breaks (dropped entirely by the re-serialisation of eval / alias / conditions)
+Text == {"E", "W", "MB", "SP", "QT", "QT2", "NL", "LF", "CRLF"}
 \* CL = an array that contains its own handle; CM = a map holding an array that holds the map again (handle cycles:
 \* every traversal through handles - json_encode --collection, release -r - must still terminate)
 Handle == {"L", "M", "S", "Y", "R", "B", "CL", "CM"}
 VarN == {"VAR", "NOVAR", "E"}
 Path == {"F", "D", "G", "GLOB", "NOFILE", "E", "SEPEXT"}
-Untyped == {"E", "0", "-1", "HUGE", "MB", "SP", "QT", "QT2", "COPY", "-r", "COLL", "PREFIX", "KV", "JSON", "SEMVER", "VAR", "F", "D", "NOFILE", "L", "M", "S", "R", "B", "CL", "CM", "EQ", "PAR"}
+Untyped == {"E", "0", "-1", "HUGE", "MB", "SP", "QT", "QT2", "COPY", "-r", "COLL", "PREFIX", "KV", "JSON", "SEMVER", "VAR", "F", "D", "NOFILE", "L", "M", "S", "R", "B", "CL", "CM", "EQ", "PAR", "LF"}
 Small == {"E", "0", "-1", "5", "MB", "SP", "L", "M", "F", "NOFILE"}
 Sig == [ n \in {} |-> <<>> ]
   @@ ("std::string::SubString" :> <<Text, Num, Num>>) @@ ("std::collections::ArraySet" :> <<Handle, Num, Text>>) @@ ("std::collections::ArrayGet" :> <<Handle, Num>>)
